@@ -234,7 +234,9 @@ def find_pattern_in_structure(structure, pattern, axisp1_idx=None, axisp2_idx=No
 
             # note that we can use positions are unchanged here, which does not handle periodic boundaries, because all
             # our coordinates are unwrapped.
-            if np.allclose(atom_positions, chk_pattern.positions, atol=atol):
+            # rtol=0: the requested absolute tolerance is the whole tolerance (numpy's default rtol=1e-5 would add
+            # 1e-5 * |coordinate|, so the same fragment would pass far from the origin and fail near it)
+            if np.allclose(atom_positions, chk_pattern.positions, rtol=0, atol=atol):
                 good_indices.append(i)
 
         if _verif_on and _verif_sink is not None:
